@@ -26,7 +26,7 @@ RULE = ('precedence: for each of 12 keys (9 documented, 3 unknown) a seeded choi
 ASSUMPTIONS = ['prefix items are non-empty and contain no comma', 'equality of poll cadence is judged in logical terms '
                '(timer thread alive and >= 3 polls within a generous watchdog), not by wall-clock period']
 REQUIRE = {'precedence_reads': 400, 'behaviour_sessions': 20, 'classifications': 5000, 'prefix_matched': 1500,
-           'exclusion_won': 200}
+           'exclusion_won': 200, 'reclassified_snapshots': 40}
 SHARD_TIMEOUT = {'quick': 400, 'thorough': 2400}
 
 DOCUMENTED = {   # key -> (module default when no env, kind)
@@ -39,7 +39,7 @@ UNKNOWN = ['SERVICE_USERNAME', 'SERVICE_PASSWORD', 'MY_CUSTOM_KEY']
 def plan(tier, seed):
     n = {'quick': 1, 'thorough': 12}[tier]
     return (split_seeds('p%s' % seed, 48 * n, 8, 'precedence') + split_seeds('b%s' % seed, 16 * n, 8, 'behaviour') +
-            split_seeds('c%s' % seed, 6000 * n, 4, 'classify'))
+            split_seeds('c%s' % seed, 6000 * n, 4, 'classify') + split_seeds('r%s' % seed, 24 * n, 2, 'reclassify'))
 
 
 # ---------------------------------------------------------------- (a) precedence
@@ -359,11 +359,67 @@ def case_classify(seed, out, spec):
         witness, app_frame=got_app, short_path=got_short))
 
 
+def case_reclassify(seed, out, spec):
+    """The same source file classified under several configurations in one process (agent restarted with another
+    app root / include / exclude): every snapshot must follow the configuration it was taken under."""
+    import os
+    from vf import hostframe
+    from vf.rig import Rig, line_trigger
+    from vf.snaprig import Workdir
+    r = Rng('c19r', seed)
+    wd = Workdir('c19')
+    try:
+        path = hostframe.write_host(wd.path, ['a'], depth=2, tag='rc')
+        base = os.path.basename(path)
+        mod = hostframe.load(path)
+        line = hostframe.markers(path)['hit']
+        parent = os.path.dirname(wd.path)
+        seen = []
+        for k in range(r.randrange(3, 6)):
+            mode = r.pick(['root', 'parent', 'include', 'exclude', 'none', 'exclude_in_root'])
+            app_root, inc, exc = '/nonexistent', [], []
+            if mode == 'root':
+                app_root = wd.path
+            elif mode == 'parent':
+                app_root = parent
+            elif mode == 'include':
+                inc = [wd.path + os.sep]
+            elif mode == 'exclude':
+                exc = [wd.path]
+            elif mode == 'exclude_in_root':
+                app_root, exc = parent, [wd.path]
+            rig = Rig(custom={'APP_ROOT': app_root, 'IN_APP_INCLUDE': list(inc), 'IN_APP_EXCLUDE': list(exc)},
+                      host_dir=wd.path)
+            rig.install([line_trigger('t%d' % k, base, line, {}, [])])
+            rig.run(mod.entry, 1)
+            snaps = [p.snapshot for p in rig.push.pushed]
+            rig.cleanup()
+            if not snaps:
+                out.violation('classify:no-snapshot', 'no snapshot under configuration %d (%s)' % (k, mode),
+                              {'sequence': seen + [mode]}, replay_spec(spec, seed))
+                return
+            fr = snaps[0].frames[0]
+            app, shorts = app_rule_for(app_root, inc, exc)(path)
+            seen.append(mode)
+            if bool(fr.app_frame) != app or fr.short_path not in shorts:
+                out.violation('classify:stale-across-configurations',
+                              'configuration %d (%s) after %s: frame flagged app=%r short=%r, its configuration says '
+                              'app=%r short in %r' % (k, mode, seen[:-1], fr.app_frame, fr.short_path, app,
+                                                      sorted(shorts)), {'sequence': seen}, replay_spec(spec, seed))
+                return
+            out.count('reclassified_snapshots')
+        out.case({'seq': seen}, nontrivial=len(set(seen)) > 1, sample={'configurations_in_one_process': seen})
+    finally:
+        wd.close()
+
+
 def run_shard(spec, out):
     for seed in spec_seeds(spec):
         if spec['kind'] == 'precedence':
             case_precedence(seed, out, spec)
         elif spec['kind'] == 'behaviour':
             case_behaviour(seed, out, spec)
+        elif spec['kind'] == 'reclassify':
+            case_reclassify(seed, out, spec)
         else:
             case_classify(seed, out, spec)
